@@ -187,6 +187,28 @@ impl<'a> Sim<'a> {
         f()
     }
 
+    /// Resets every TCP stream the current host has open (RST to every remote
+    /// peer, socket entries removed). Crashing or bouncing a host is abortive:
+    /// the peers (readers and writers parked on the flow-control window
+    /// alike) learn of it at once instead of waiting for segments that reach
+    /// a host that is down or an incarnation that never knew the stream, and
+    /// the dropped tasks' destructors find no socket left to close
+    /// gracefully.
+    fn reset_streams() {
+        World::current(|world| {
+            for pair in world.current_host_mut().tcp.stream_pairs() {
+                if !crate::host::is_same(pair.local, pair.remote) {
+                    let _ = world.send_message(
+                        pair.local,
+                        pair.remote,
+                        crate::Protocol::Tcp(crate::Segment::Rst),
+                    );
+                }
+                world.current_host_mut().tcp.reset_stream(pair);
+            }
+        });
+    }
+
     /// Crashes the resolved hosts. Nothing will be running on the matched hosts
     /// after this method. You can use [`Sim::bounce`] to start the hosts up
     /// again.
@@ -202,24 +224,8 @@ impl<'a> Sim<'a> {
             self.world.borrow_mut().current = Some(h);
 
             World::enter(&self.world, || {
-                // A crash is abortive. Reset every stream the host has open
-                // before its tasks are dropped: the peers (readers and
-                // writers parked on the flow-control window alike) learn of
-                // it at once instead of waiting for segments that reach a
-                // host that is down, and the tasks' destructors find no
-                // socket left to close gracefully.
-                World::current(|world| {
-                    for pair in world.current_host_mut().tcp.stream_pairs() {
-                        if !crate::host::is_same(pair.local, pair.remote) {
-                            let _ = world.send_message(
-                                pair.local,
-                                pair.remote,
-                                crate::Protocol::Tcp(crate::Segment::Rst),
-                            );
-                        }
-                        world.current_host_mut().tcp.reset_stream(pair);
-                    }
-                });
+                // A crash is abortive: see `reset_streams`.
+                Self::reset_streams();
 
                 Self::in_host_io_context(&self.world, h, || rt.crash());
 
@@ -247,6 +253,8 @@ impl<'a> Sim<'a> {
     /// Bounces the resolved hosts. The software is restarted.
     pub fn bounce(&mut self, addrs: impl ToIpAddrs) {
         self.run_with_hosts(addrs, |world, addr, rt| {
+            // The old incarnation's connections die with it.
+            Self::reset_streams();
             Self::in_host_io_context(world, addr, || rt.bounce());
 
             tracing::trace!(target: TRACING_TARGET, addr = ?addr, "Bounce");
